@@ -109,7 +109,7 @@ func newStoreModel(c *Ctx) (*storeModel, string) {
 			if core.QualTypeName(f.Type()) == "github.com/cockroachdb/pebble.DB" {
 				hasDB = true
 			}
-			if core.QualTypeName(f.Type()) == "sync/atomic.Value" && strings.Contains(strings.ToLower(f.Name()), "radius") {
+			if qn := core.QualTypeName(f.Type()); (qn == "sync/atomic.Value" || strings.HasPrefix(qn, "sync/atomic.Pointer")) && strings.Contains(strings.ToLower(f.Name()), "radius") {
 				rad = core.FieldDisplayName(nt, f)
 			}
 		}
@@ -225,7 +225,7 @@ func (m *storeModel) radiusCmpCall(c *ssa.Call) bool {
 			if !ok {
 				return false
 			}
-			if core.CalleeID(c2) == atomicValLoad && len(c2.Call.Args) > 0 && m.isField(c2.Call.Args[0], m.radFld) {
+			if isAtomicCell(core.CalleeID(c2), "Load") && len(c2.Call.Args) > 0 && m.isField(c2.Call.Args[0], m.radFld) {
 				return true
 			}
 			// the store's own accessor of the radius
@@ -271,13 +271,13 @@ func (m *storeModel) radiusGate(passed bool) func(fs []core.Fact) bool {
 func (m *storeModel) loadsRadius(f *ssa.Function) bool {
 	found := false
 	core.Calls(f, func(ci ssa.CallInstruction) {
-		if core.CalleeID(ci) == atomicValLoad && m.isField(ci.Common().Args[0], m.radFld) {
+		if isAtomicCell(core.CalleeID(ci), "Load") && m.isField(ci.Common().Args[0], m.radFld) {
 			found = true
 		}
 		// through the store's own accessor of the radius (a one-parameter method returning it)
 		if g := core.StaticCalleeFn(ci); g != nil && g != f && core.InModule(g) && len(g.Params) == 1 && g.Signature.Results().Len() == 1 && g.Signature.Recv() != nil {
 			core.Calls(g, func(c2 ssa.CallInstruction) {
-				if core.CalleeID(c2) == atomicValLoad && m.isField(c2.Common().Args[0], m.radFld) {
+				if isAtomicCell(core.CalleeID(c2), "Load") && m.isField(c2.Common().Args[0], m.radFld) {
 					found = true
 				}
 			})
@@ -621,4 +621,10 @@ func sliceOrigins(v ssa.Value) []ssa.Value {
 	}
 	rec(v)
 	return out
+}
+
+// isAtomicCell: a Load / Store on the cell that holds the radius, whether it is an untyped
+// atomic.Value (read back through a type assertion) or a typed atomic.Pointer[uint256.Int].
+func isAtomicCell(id, op string) bool {
+	return id == "sync/atomic.(*Value)."+op || id == "sync/atomic.(*Pointer)."+op
 }
